@@ -35,6 +35,15 @@ CLAIMED = {
              note="Trusted: numpy (np.array, astype, elementwise `-`, polyval, a[:] = b as uninterpreted functions with the stated "
                   "facts), h5py dataset read/write primitives over the abstract store, floats as reals; in-place array updates are "
                   "modelled by rebinding local aliases.", ref="7 C15"),
+ "C10": dict(text="Deductive proof that values are classified with bool before int (True is never an integer), that "
+                  "Property.values / extend_values / Section.create_property accept a list exactly when every element (loop invariant "
+                  "over every position) has the property's data type (the first element's type on creation), that a refused "
+                  "assignment leaves extent and content untouched (no write before the check on any raising path), that accepted "
+                  "values are what is written and that extend writes right behind the old values.",
+             note="Trusted: h5py dataset resize/write/dtype primitives over the abstract store; numpy array construction as an "
+                  "uninterpreted function; Property.create_new and the Property.values getter enter as assumed summaries; h5py "
+                  "accepts type-checked values; dict-style section access and persistence across reopen are not covered.",
+             ref="7 C10"),
 }
 NA_REASON = "check not built yet in this round (design in DESIGN.md section 7); will be claimed once its contracts discharge"
 checks, na = [], []
